@@ -33,14 +33,19 @@ def Src.vcs : Src → Bool
 
 structure Fixes where
   f9 : Bool := false
+  /-- the project has a git config with `core.excludesFile`: discovered at the origin, it overrides
+      (removes) the global git excludes — `skip_git_global_excludes` in dirs.rs -/
+  gitCfg : Bool := false
 
 /-- the list handed to the ignore-files filterer -/
 def assemble (cfg : Fixes) (f0 : Flags) : List Src :=
   let f := f0.norm
   let explicitLate : List Src := if cfg.f9 then [.explicitTail] else []
   if f.noDiscover then explicitLate else
-  let l : List Src := if f.noProject then [] else [.explicitViaOrigin, .projectVcs, .projectPlain, .gitConfigExcludes]
-  let l := l ++ (if f.noGlobal then [] else [.globalVcs, .globalPlain])
+  let l : List Src := if f.noProject then [] else
+    [.explicitViaOrigin, .projectVcs, .projectPlain] ++ (if cfg.gitCfg then [.gitConfigExcludes] else [])
+  let skipGlobalGit := cfg.gitCfg && !f.noProject
+  let l := l ++ (if f.noGlobal then [] else (if skipGlobalGit then [] else [.globalVcs]) ++ [.globalPlain])
   let l := if cfg.f9 then l else l ++ [.explicitTail]
   let l := if f.noProject then l.filter (fun s => !s.inOrigin) else l
   let l := if f.noGlobal then l.filter (fun s => s.appliesInSome) else l
@@ -51,12 +56,14 @@ def explicitHonoured (l : List Src) : Bool := l.contains .explicitViaOrigin || l
 
 /-- repaired: under all 64 flag combinations the explicit file is in the list -/
 theorem c12_explicit_always :
-    ∀ a b c d e g : Bool, explicitHonoured (assemble ⟨true⟩ ⟨a, b, c, d, e, g⟩) = true := by decide
+    ∀ a b c d e g : Bool, explicitHonoured (assemble ⟨true, false⟩ ⟨a, b, c, d, e, g⟩) = true ∧
+      explicitHonoured (assemble ⟨true, true⟩ ⟨a, b, c, d, e, g⟩) = true := by decide
 
 /-- and the flags still do what they say: no discovered project file with --no-project-ignore, etc. -/
 theorem c12_flags_effective :
     ∀ a b c d e g : Bool,
-      let l := assemble ⟨true⟩ ⟨a, b, c, d, e, g⟩
+    ∀ gc : Bool,
+      let l := assemble ⟨true, gc⟩ ⟨a, b, c, d, e, g⟩
       let f := (Flags.mk a b c d e g).norm
       (f.noProject → ¬ l.contains .projectVcs ∧ ¬ l.contains .projectPlain) ∧
       (f.noGlobal → ¬ l.contains .globalVcs ∧ ¬ l.contains .globalPlain ∧ ¬ l.contains .gitConfigExcludes) ∧
@@ -69,6 +76,63 @@ def lost (cfg : Fixes) : Nat :=
     !explicitHonoured (assemble cfg ⟨n.testBit 0, n.testBit 1, n.testBit 2, n.testBit 3, n.testBit 4, n.testBit 5⟩))).length
 
 theorem c12_today_52 : lost {} = 52 := by decide
-theorem c12_fixed_0 : lost ⟨true⟩ = 0 := by decide
+theorem c12_fixed_0 : lost ⟨true, false⟩ = 0 ∧ lost ⟨true, true⟩ = 0 := by decide
+
+/-! ### the whole filterer configuration, and exactness -/
+
+/-- which discovered / built-in source each flag names (after normalisation) -/
+def removedBy (f0 : Flags) : Src → Bool :=
+  let f := f0.norm
+  fun
+  | .projectVcs => f.noProject || f.noVcs || f.noDiscover
+  | .projectPlain => f.noProject || f.noDiscover
+  | .gitConfigExcludes => f.noProject || f.noGlobal || f.noVcs || f.noDiscover
+  | .globalVcs => f.noGlobal || f.noVcs || f.noDiscover
+  | .globalPlain => f.noGlobal || f.noDiscover
+  | _ => false
+
+def discovered : List Src := [.projectVcs, .projectPlain, .globalVcs, .globalPlain]
+
+/-- **exact removal**: a discovered source reaches the filterer iff no set flag names it — all 64 combinations -/
+theorem c12_exact :
+    ∀ a b c d e g : Bool, ∀ s ∈ discovered,
+      (assemble ⟨true, false⟩ ⟨a, b, c, d, e, g⟩).contains s = !removedBy ⟨a, b, c, d, e, g⟩ s := by decide
+
+/-- with a project-level `core.excludesFile`: it is itself removed exactly by the flags that name it, and it
+    replaces the global git excludes whenever the project's git config is read at all -/
+theorem c12_exact_gitcfg :
+    ∀ a b c d e g : Bool,
+      let f : Flags := ⟨a, b, c, d, e, g⟩
+      let l := assemble ⟨true, true⟩ f
+      l.contains .gitConfigExcludes = !removedBy f .gitConfigExcludes ∧
+      l.contains .globalVcs = (!removedBy f .globalVcs && f.norm.noProject) ∧
+      (∀ s ∈ [Src.projectVcs, .projectPlain, .globalPlain], l.contains s = !removedBy f s) := by decide
+
+/-- what `WatchexecFilterer::new` builds: the ignore files above plus everything given explicitly -/
+structure Out where
+  igfiles : List Src
+  defaultIgnores : Bool     -- the built-in default patterns
+  ignorePatterns : Bool     -- --ignore
+  filters : Bool            -- --filter / --filter-file
+  exts : Bool               -- --exts
+  fsEvents : Bool           -- --fs-events
+  deriving DecidableEq, Repr
+
+def configure (cfg : Fixes) (f : Flags) : Out :=
+  { igfiles := assemble cfg f, defaultIgnores := !f.norm.noDefault, ignorePatterns := true, filters := true, exts := true, fsEvents := true }
+
+/-- **explicit kept**: every explicit option reaches the filterer under all 64 combinations, and the built-in
+    defaults are removed exactly by --no-default-ignore / --ignore-nothing -/
+theorem c12_explicit_all :
+    ∀ a b c d e g : Bool,
+    ∀ gc : Bool,
+      let o := configure ⟨true, gc⟩ ⟨a, b, c, d, e, g⟩
+      explicitHonoured o.igfiles = true ∧ o.ignorePatterns = true ∧ o.filters = true ∧ o.exts = true ∧ o.fsEvents = true ∧
+      o.defaultIgnores = !(d || g) := by decide
+
+/-- a non-trivial instance: no flags -> every source present; --no-discover-ignore -> only the explicit file -/
+example : (configure ⟨true, false⟩ ⟨false, false, false, false, false, false⟩).igfiles.length = 6 := by decide
+example : (configure ⟨true, true⟩ ⟨false, false, false, false, false, false⟩).igfiles.length = 6 := by decide
+example : (configure ⟨true, false⟩ ⟨false, false, false, false, true, false⟩).igfiles = [.explicitTail] := by decide
 
 end C12
